@@ -42,9 +42,9 @@ theorem obsList_append (w : Bool) (m : Mon) (a b : List Obs) :
     | some m' => simpa using ih m'
 
 /-- cancelling a whole waiting list (write failures) is allowed when nothing is outstanding -/
-theorem cancels_ok (w : Bool) (p : Bool) (l : List String) :
-    Mon.obsList w { paused := p, waiting := l, out := none } (l.map (fun x => Obs.cancel x false)) =
-      some { paused := p, waiting := [], out := none } := by
+theorem cancels_ok (w : Bool) (l : List String) :
+    Mon.obsList w { paused := false, waiting := l, out := none } (l.map (fun x => Obs.cancel x false)) =
+      some { paused := false, waiting := [], out := none } := by
   induction l with
   | nil => simp [Mon.obsList]
   | cons h t ih => simp [Mon.obsList, Mon.obs, ih]
@@ -62,7 +62,7 @@ theorem dispatch_ok (w : Bool) (s : St) (hp : s.pend = "") (hne : ∀ x ∈ s.q,
       have hh : h ≠ "" := hne h (by simp [hq])
       by_cases hw : canWrite s = true
       · simp [hw, Mon.obsList, Mon.obs, absM, hh, hpa, hq]
-      · have := cancels_ok w false (h :: r)
+      · have := cancels_ok w (h :: r)
         simp only [List.map_cons] at this
         simp [hw, this, absM, hp]
 
